@@ -229,6 +229,13 @@ def run_shard(job):
 
         survey()
 
+        # optional Hypothesis stateful (rule-based machine) pass: failing histories come back as replayable cases
+        if hasattr(mod, "stateful_cases"):
+            cases, nsteps = mod.stateful_cases(tier, sseed, shard, nshards)
+            stats.classes["stateful-machine-steps"] = stats.classes.get("stateful-machine-steps", 0) + nsteps
+            for case in cases:
+                _visit(mod, stats, open_keys, case)
+
         # minimise each new bucket found by generated cases
         if do_shrink:
             for b, rec in list(stats.buckets.items()):
